@@ -67,4 +67,52 @@ def _same(a, b):
     return enum_eq(a, b) if hasattr(a, "idx") else a is b
 
 
-CASES = [SliceLocated()]
+COMP4 = {"A": "T", "C": "G", "G": "C", "T": "A"}  # specification (IUPAC complement restricted to ACGT)
+
+
+def _comp_code(c):
+    out = ord("A")
+    for k, v in COMP4.items():
+        out = If(c == ord(k), ord(v), out)
+    return out
+
+
+class ExtractSingle(Case):
+    """SingleInterval.extract_sequence on a parent with symbolic text of ANY length: the i-th base is the parent base
+    at the i-th mapped position, complemented on the minus strand (statement, verbatim)."""
+    props = ("C03",)
+    name = "SingleInterval.extract_sequence[symbolic parent text]"
+    func = "location.location_impl.SingleInterval.extract_sequence"
+    call = "(lambda s: (len(s), s))(loc.extract_sequence())"
+    # an empty parent sequence is falsy (its truth value is its length): the documented NullSequenceException
+    raises = {"NullSequenceException": lambda i: i.L == 0,
+              "InvalidStrandException": lambda i: And(i.L > 0, is_unstranded(i.loc.strand))}
+    ensures = {
+        "length": lambda i, r: r[0] == i.loc.end - i.loc.start,
+        "i-th-base-is-image-of-i-th-position": lambda i, r: Implies(
+            And(0 <= i.k, i.k < r[0]),
+            _char(r[1].sequence if hasattr(r[1], "attrs") else str(r[1]), i.k) == If(
+                is_plus(i.loc.strand), _char(i.text, i.loc.start + i.k),
+                _comp_code(_char(i.text, i.loc.end - 1 - i.k)))),
+    }
+
+    def inputs(self, S):
+        par, L = parent_with_sequence(S)
+        loc = single(S, "loc", par, L)
+        seq = par.sequence
+        text = seq.sequence if hasattr(seq, "attrs") else str(seq)
+        return NS(loc=loc, text=text, k=S.int("k"), L=L)
+
+    def samples(self, rng):
+        s0 = rng.randint(0, 6)
+        e0 = s0 + rng.randint(0, 6)
+        return dict(loc_start=s0, loc_end=e0, loc_strand=rng.choice(["PLUS", "MINUS", "UNSTRANDED"]),
+                    seq="".join(rng.choice("ACGT") for _ in range(e0 + rng.randint(0, 3))), k=rng.randint(0, 5))
+
+    def observe(self, r):
+        from pyvc.check import default_observe as o
+        text = r[1].sequence if hasattr(r[1], "attrs") else str(r[1])
+        return [o(r[0]), text if isinstance(text, str) else None]
+
+
+CASES = [SliceLocated(), ExtractSingle()]
